@@ -209,7 +209,11 @@ def run(prop, mod, tier, seed, tmpdir, a, t0):
         elif r['status'] in ('lost', 'timeout', 'harness_error'):
             inconclusive.append(r)
 
+    # the modules state the design floors (about what the deterministic workload
+    # delivers divided by 2-3); the enforced floor leaves room for the variation
+    # between seeds: a deciding monitor must have seen >= 40% of the design floor
     floors = mod.floors(tier) if hasattr(mod, 'floors') else {}
+    floors = {k: int(0.4 * v) for k, v in floors.items()}
     scale = 1.0
     if a.limit or a.only:
         scale = 0.0
@@ -261,8 +265,13 @@ def run(prop, mod, tier, seed, tmpdir, a, t0):
         'wall_s': round(time.time() - t0, 2),
         'violations': len(violations),
     }
+    # evidence describes full runs against the repository itself: partial runs
+    # (--only / --limit) and runs against a scratch worktree (VERIF_REPO) write
+    # their record next to it instead
+    partial = bool(a.limit or a.only) or os.path.realpath(REPO) != '/repo'
     os.makedirs(os.path.join(ROOT, 'evidence'), exist_ok=True)
-    with open(os.path.join(ROOT, 'evidence', f'{prop}.json'), 'w') as f:
+    evname = f'{prop}.partial.json' if partial else f'{prop}.json'
+    with open(os.path.join(ROOT, 'evidence', evname), 'w') as f:
         json.dump(ev, f, indent=1, default=str)
         f.write('\n')
 
